@@ -1,5 +1,57 @@
-(* C02 — non-vacuity examples *)
-From Coq Require Import ZArith List.
+(* C02 — non-vacuity examples for the hypotheses of Props.v, and sharpness witnesses *)
+From Coq Require Import ZArith List Bool Lia.
 From FV Require Import Lib.RustInt C02.Model C02.Proofs.
 Import ListNotations.
 Open Scope Z_scope.
+
+(* the invariants hold of the initial states the real code constructs *)
+Example vinv_initial : vinv 8 (mkVS [0;0;0;0;0;0;0;0] 0).
+Proof. split; cbn; [reflexivity|lia]. Qed.
+Example minv_initial : minv (mkM tt (cs_new (0, tt)) (mkBudget (loop_limit None 100) 0 0)).
+Proof.
+  split; [apply cs_new_inv|]. unfold binv, loop_limit, usize_max. cbn. lia.
+Qed.
+
+(* a value-stack sequence that exercises underflow, overflow, CINDEX/MINDEX with hostile indices *)
+Example vs_hostile_no_panic :
+  exists r, vs_run true [OCopyIndex; OPush (-2147483648); OMoveIndex; OPush 1; OPush 2; OCopyIndex; OPush 7; OPush 2; OMoveIndex; ORoll]
+         (mkVS [9;9;9] 0) = Some r.
+Proof. vm_compute. eauto. Qed.
+
+(* the decycler rejects the cycle a -> b -> a -> b at the fourth Enter (2L with L = 2, P = 0) and not earlier *)
+Example dec_cycle2 : dec_drive 64 (dec_new 64) [Some 1; Some 2; Some 1; Some 2] = Some [(0,1); (0,2); (0,3); (1,3)].
+Proof. reflexivity. Qed.
+(* sharpness of the bound: with L = 2 the first 2L - 1 = 3 Enters all succeed *)
+Example dec_cycle2_sharp : all_entered (spec_drive 64 [] (enters (fun i => Z.of_nat (i mod 2)) 3)) = true.
+Proof. reflexivity. Qed.
+Example dec_cycle_hyp : forall i, (0 <= i)%nat -> (fun i => Z.of_nat (i mod 2)) (i + 2)%nat = (fun i => Z.of_nat (i mod 2)) i.
+Proof.
+  intros i _. cbv beta. f_equal. replace (i + 2)%nat with (i + 1 * 2)%nat by lia. apply Nat.mod_add. lia.
+Qed.
+(* depth limit: 65 distinct nodes *)
+Example dec_depth_limit : nth 64 (spec_drive 64 [] (enters (fun i => Z.of_nat i) 65)) (0, 0) = (2, 64).
+Proof. vm_compute. reflexivity. Qed.
+
+(* run loop: the tight backward loop PUSHW -3; JMPR hits the loop budget (limit 300: 301st jump), and
+   a self-recursive function hits the call-stack depth 32 *)
+Example run_tight_loop : t_reconfigure 0 48 4 [] [184; 255; 253; 28] = (1, 1, 3, 21).
+Proof. vm_compute. reflexivity. Qed.
+Example run_recursion : t_reconfigure 0 48 4 [176; 0; 44; 176; 0; 43; 45; 176; 0; 43] [] = (1, 0, 5, 9).
+Proof. vm_compute. reflexivity. Qed.
+
+(* composite: a 2-cycle is cut; a chain of depth 32 loads, depth 33 does not *)
+Definition cyc2 (g : Z) : gkind := GComposite [(g + 1) mod 2].
+Example comp_cycle_hyp : forall g, exists c cs, cyc2 g = GComposite (c :: cs).
+Proof. intros g. unfold cyc2. eauto. Qed.
+Example comp_cycle : fst (load cyc2 0 0) = LoadRecursionLimit.
+Proof. vm_compute. reflexivity. Qed.
+Definition chain (k : Z) (g : Z) : gkind := if g <? k then GComposite [g + 1] else GSimple.
+Example comp_chain32 : fst (load (chain 32) 0 0) = LoadOk.
+Proof. vm_compute. reflexivity. Qed.
+Example comp_chain33 : fst (load (chain 33) 0 0) = LoadRecursionLimit.
+Proof. vm_compute. reflexivity. Qed.
+(* the guard bounds depth, not work: a fan-out-2 map of depth 12 makes 2^13 - 1 load() calls; with depth 32
+   the same shape needs 2^33 - 1 (the composite bomb reported in notes/C02.md) *)
+Definition fan2 (k : Z) (g : Z) : gkind := if g <? k then GComposite [g + 1; g + 1] else GSimple.
+Example comp_fan2_work : load (fan2 12) 0 0 = (LoadOk, 8191).
+Proof. vm_compute. reflexivity. Qed.
